@@ -205,6 +205,12 @@ def _variants():
               [N("enc", {"type": "msg", "v": "2", "mediatype": "video"}, data=b"\x33\x0a\x21\x05abc"), N("enc", {"type": "skmsg", "v": "2"}, data=b"\x33\x08\x02skdata")])))
     V.append((EM + "#two-media-types", EM, lambda: N("message", {"from": J1, "t": "1418906418", "type": "media", "id": "1418906377-4", "notify": "Someone"},
               [N("enc", {"type": "pkmsg", "v": "2", "mediatype": "audio"}, data=b"\x33\x08\x01\x12\x21\x05abcdef"), N("enc", {"type": "msg", "v": "2", "mediatype": "image"}, data=b"\x33\x0a\x21\x05abc")])))
+    # a call stanza of every kind the entity knows (the repository's fixture is the offer): the kind is the tag of the child carrying the call id
+    CALL = "protocol_calls:call.CallProtocolEntity"
+    for kind in ("transport", "relaylatency", "reject", "terminate"):
+        V.append((CALL + "#" + kind, CALL,
+                  (lambda kind=kind: N("call", {"from": J1, "t": "1418906418", "id": "1418906377-7", "notify": "Someone", "offline": "0", "retry": "1", "e": "0"},
+                                       [N(kind, {"call-id": "1418906377-call"})]))))
     return [v for v in V if v[2] is not None]
 
 
